@@ -11,7 +11,7 @@ pub struct StyleController;
 impl Controller for StyleController {
     fn is_matching(request: &Request, _connection: &ConnectionInfo) -> bool {
         // query and fragment are not part of the path
-        request.method == METHOD.get && request.get_uri_path().unwrap_or(request.request_uri.to_string()) == "/style.css"
+        (request.method == METHOD.get || request.method == METHOD.head || request.method == METHOD.options) && request.get_uri_path().unwrap_or(request.request_uri.to_string()) == "/style.css"
     }
 
     fn process(_request: &Request, mut response: Response, _connection: &ConnectionInfo) -> Response {
